@@ -598,13 +598,22 @@ DamageBounded(c, o) ==
                            /\ \A j \in NewEntries(o) : o.post[j].u = c.u
     [] c.eff = "delcol" -> OthersSame(c, o)
 
+\* MessagePack numbers whose wire width differs from the width of the Go field they are decoded into (float64 for
+\* a float32 field: query vectors, v1 vectors, alpha, weight; int8 / int16 / uint8 / uint16 / fixint in an
+\* integer-indexed point field) are refused with 400 by the pinned code.  The property forbids a 5xx or a crash for
+\* a valid request, not a refusal that changes nothing, so these cases are judged by the `either` rule.
+WireWidth(c) ==
+  /\ c.enc = "mp" /\ c.lab = "accept"
+  /\ \/ c.k = "elem" /\ c.s = "f64" /\ c.t = "vec" /\ c.ep \notin {"v2.insert", "v2.update"}
+     \/ c.k = "f64" /\ c.t = "float"
+     \/ c.k = "mpint" /\ c.s \in {"fixint", "int8", "int16", "uint8", "uint16"} /\ c.ep \in {"v2.insert", "v2.update"}
 Conforms(c, o) ==
   /\ NoCrash(o)
   /\ CASE c.lab = "reject" -> Class(o) = 4 /\ Unchanged(o)
-       [] c.lab = "accept" -> Class(o) = 2 /\ EffectOK(c, o)
-       [] c.lab = "either" -> /\ Class(o) \in {2, 3, 4}
-                              /\ Class(o) # 2 => Unchanged(o)
-                              /\ Class(o) = 2 => DamageBounded(c, o)
+       [] c.lab = "accept" /\ ~WireWidth(c) -> Class(o) = 2 /\ EffectOK(c, o)
+       [] c.lab = "either" \/ WireWidth(c) -> /\ Class(o) \in {2, 3, 4}
+                                              /\ Class(o) # 2 => Unchanged(o)
+                                              /\ Class(o) = 2 => DamageBounded(c, o)
        [] c.lab = "nonfinite" -> /\ Class(o) \in {3, 4} => Unchanged(o)
                                  /\ DamageBounded(c, o)
 
